@@ -1,6 +1,7 @@
 CONSTANTS
   NG = 3
   NL = 0
+  Sample = 400
   MaxLen = 3
 INIT Init
 NEXT Next
